@@ -1274,9 +1274,7 @@ func (d *Decoder) addReify(ectx evaluationContext, id string, t statement) {
 				Predicate: rdfiri.Subject_Property,
 				Object:    t.triple.Subject,
 			},
-			textOffsets: encoding.StatementTextOffsets{
-				encoding.ObjectStatementOffsets: t.textOffsets[encoding.SubjectStatementOffsets],
-			},
+			textOffsets: reifiedTextOffsets(t.textOffsets, encoding.SubjectStatementOffsets),
 			containerResource: ectx.CurrentContainer,
 		},
 		statement{
@@ -1285,9 +1283,7 @@ func (d *Decoder) addReify(ectx evaluationContext, id string, t statement) {
 				Predicate: rdfiri.Predicate_Property,
 				Object:    t.triple.Predicate,
 			},
-			textOffsets: encoding.StatementTextOffsets{
-				encoding.ObjectStatementOffsets: t.textOffsets[encoding.PredicateStatementOffsets],
-			},
+			textOffsets: reifiedTextOffsets(t.textOffsets, encoding.PredicateStatementOffsets),
 			containerResource: ectx.CurrentContainer,
 		},
 		statement{
@@ -1296,10 +1292,21 @@ func (d *Decoder) addReify(ectx evaluationContext, id string, t statement) {
 				Predicate: rdfiri.Object_Property,
 				Object:    t.triple.Object,
 			},
-			textOffsets: encoding.StatementTextOffsets{
-				encoding.ObjectStatementOffsets: t.textOffsets[encoding.ObjectStatementOffsets],
-			},
+			textOffsets: reifiedTextOffsets(t.textOffsets, encoding.ObjectStatementOffsets),
 			containerResource: ectx.CurrentContainer,
 		},
 	)
+}
+
+// reifiedTextOffsets carries the range of a reified statement's term over to the object of its reification
+// statement; a term without a range leaves the object without one.
+func reifiedTextOffsets(from encoding.StatementTextOffsets, k encoding.StatementOffsetsType) encoding.StatementTextOffsets {
+	v, ok := from[k]
+	if !ok {
+		return nil
+	}
+
+	return encoding.StatementTextOffsets{
+		encoding.ObjectStatementOffsets: v,
+	}
 }
